@@ -175,6 +175,22 @@ Proof.
   split; [repeat constructor; lia|split; [repeat constructor|cbn; lia]].
 Qed.
 
+(* a valid address without a single letter ("21939603636202595": hrp "2", version 5, every symbol a digit): both str.lower() and
+   str.upper() leave it unchanged, so the mixed-case test must not fire; str.islower()/isupper() are both False on it
+   (seeded change C11-d1 rejected exactly these) *)
+Definition C11_letter_free_addr : pystr := [50; 49; 57; 51; 57; 54; 48; 51; 54; 51; 54; 50; 48; 50; 53; 57; 53]%N.
+Example C11_letter_free_address_accepted :
+  triple_ok [50]%N 5 [137; 116; 248; 234; 58]
+  /\ decode [50]%N C11_letter_free_addr = Some (5, [137; 116; 248; 234; 58])
+  /\ encode [50]%N 5 [137; 116; 248; 234; 58] = Ret (Some C11_letter_free_addr)
+  /\ map lower_c C11_letter_free_addr = C11_letter_free_addr /\ map upper_c C11_letter_free_addr = C11_letter_free_addr.
+Proof.
+  split.
+  { split; [|lia|repeat constructor; lia|cbn; lia|lia|vm_compute; congruence].
+    split; [repeat constructor; lia|split; [repeat constructor|cbn; lia]]. }
+  repeat split; vm_compute; reflexivity.
+Qed.
+
 (* decode accepts EXACTLY: bech32_decode succeeds with the caller's hrp, version <= 16, strictly convertible
    program of 2..40 bytes (20 or 32 for v0), and the checksum constant that belongs to the version *)
 Theorem C11_segwit_decode_accepts_iff : forall hrp s ver prog,
